@@ -125,7 +125,7 @@ func isJSONText(b []byte) bool {
 // headerFields locates candidate length/flag/presence fields structurally: every byte of the first 64,
 // every position holding a small little-endian 64-bit or 32-bit integer (lengths, counts, decomposition
 // parameters, Galois elements look like that; uniformly random coefficient words do not). JSON texts:
-// every byte. The list is capped (quick 320 / thorough 4000 per object), keeping the earliest fields and an
+// every byte. The list is capped (quick 224 / thorough 4000 per object), keeping the earliest fields and an
 // even sample of the rest.
 func headerFields(ref []byte, tier string) []field {
 	var fs []field
@@ -149,7 +149,7 @@ func headerFields(ref []byte, tier string) []field {
 			}
 		}
 	}
-	limit, head := 320, 200
+	limit, head := 224, 160
 	if tier == "thorough" {
 		limit, head = 4000, 1000
 	}
@@ -237,9 +237,15 @@ type danger struct {
 	site      string // decoder function that reads (hence trusts) the field, "" if the trace does not name one
 }
 
+type confirmation struct {
+	ok  bool
+	msg string
+}
+
 var (
-	dangerMu    sync.Mutex
-	dangerCache = map[string][]danger{}
+	dangerMu     sync.Mutex
+	dangerCache  = map[string][]danger{}
+	confirmCache = map[string]map[string]confirmation{}
 )
 
 func putField(data []byte, f field, v uint64) {
@@ -271,11 +277,13 @@ func (x *lc) dangers(d decoder, ref []byte) []danger {
 	}
 	var r []danger
 	hdr := x.header(&d)
-	type confirmation struct {
-		ok  bool
-		msg string
+	// confirmations are a property of the decoder function, not of the value: one per (type, decoder, function)
+	gk := x.e.name + "\x00" + d.name
+	groups := confirmCache[gk]
+	if groups == nil {
+		groups = map[string]confirmation{}
+		confirmCache[gk] = groups
 	}
-	groups := map[string]confirmation{}
 	if !isJSONText(ref) {
 		// which decoder function reads which bytes of the valid encoding: the function that reads a length is the
 		// one that trusts it. Established from the call stacks of the reader calls of one traced decode, i.e. a
@@ -311,9 +319,9 @@ func (x *lc) dangers(d decoder, ref []byte) []danger {
 					continue
 				}
 				data := append([]byte(nil), ref...)
-				putField(data, f, probeLen)
+				putField(data, f, probeSmall)
 				if tooDangerous(r, data, o, o+w) {
-					continue // overlaps a length already found: this write would set that one to >= 2^19
+					continue // overlaps a length already found: this write would set that one to >= 2^14
 				}
 				// Two probes, so that the harmless probe stays cheap for fat elements: 2^14 first (a length of
 				// 8-byte-or-larger elements shows as >= 128 KiB), 2^19 only if that showed nothing (1..7-byte
@@ -371,12 +379,13 @@ func (x *lc) dangers(d decoder, ref []byte) []danger {
 	return r
 }
 
-// tooDangerous: the corrupted data would set a known allocation-driving length to >= 2^19.
+// tooDangerous: the corrupted data would set a known allocation-driving length to >= 2^14 (the field is already
+// reported; larger values would only spend time zeroing megabytes).
 func tooDangerous(dz []danger, data []byte, lo, hi int) bool {
 	for _, z := range dz {
 		if z.off < hi && lo < z.off+z.width {
 			v := getField(data, z.field)
-			if v >= probeLen && (z.width == 4 || v < 1<<63) {
+			if v >= probeSmall && (z.width == 4 || v < 1<<63) {
 				return true
 			}
 		}
@@ -401,7 +410,10 @@ func famCorruption(t *lc) {
 func corruptionValue(x *lc, d decoder) bool {
 	ref, _ := x.o.ref(d)
 	fs := headerFields(ref, x.c.Tier)
-	if x.e.heavy && x.c.Tier == "quick" && len(fs) > 96 { // decoding builds rings: milliseconds per accepted variant
+	if x.c.Tier == "quick" && len(fs) > 96 && (x.e.heavy || (d.method == "ReadFrom" && x.o.a.bu != nil)) {
+		// quick tier: parameter sets (decoding builds rings: milliseconds per accepted variant) and the second
+		// binary decoder of a type (same decoding code behind a bufio.Reader instead of a buffer.Buffer) get the
+		// first 96 fields only
 		fs = fs[:96]
 	}
 	if len(fs) == 0 {
@@ -428,7 +440,7 @@ func corruptionValue(x *lc, d decoder) bool {
 				if s == "" {
 					s, k = subj, "unbounded-alloc"
 				}
-				x.c.Fail(sig("corruption", s, k), "%s [%s] via %s: the %d-byte field at offset %d is an unchecked length: set to 2^%d the decoder allocated %d KiB for a %d-byte input (%.1f bytes per claimed element, i.e. %.0f GiB at 2^31); values >= 2^19 are not executed; %s",
+				x.c.Fail(sig("corruption", s, k), "%s [%s] via %s: the %d-byte field at offset %d is an unchecked length: set to 2^%d the decoder allocated %d KiB for a %d-byte input (%.1f bytes per claimed element, i.e. %.0f GiB at 2^31); values >= 2^14 are not executed; %s",
 					x.e.name, x.label(), d.name, w, f.off, bits.Len64(z.probed)-1, z.alloc>>10, len(ref), float64(z.alloc)/float64(z.probed), float64(z.alloc)/float64(z.probed)*2, z.confirmed)
 			}
 		}
